@@ -157,6 +157,9 @@ func runSeed(seed int64, ps *PropSpec, keepLog bool) (*RunResult, *world.World, 
 	w.StopProp = stopProp
 	g := &gen.Gen{R: r, W: w, P: gen.Swarm(r, ps.Profile), Boot: 8 + r.Intn(14)}
 	steps := ps.Steps[0] + r.Intn(ps.Steps[1]-ps.Steps[0]+1)
+	if r.Intn(400) == 0 {
+		steps *= 12 // a marathon: hidden state in long-lived function objects, deep histories
+	}
 	for _, nd := range w.Nodes {
 		w.CheckRegistry(nd)
 	}
